@@ -31,6 +31,7 @@ Inductive sloop :=
 | SOff
 | STop (since : Z)               (* between iterations (sleeping a random interval, re-testing) *)
 | SCalling (p : nat) (issued : Z) (* inside LeasePartition *)
+| SCreating (n : Z)              (* v2: inside CreatePartitions(n) of a re-provisioning; no lock is held (repair D8) *)
 | SExited.
 
 Record sstate := mkSState {
@@ -121,7 +122,8 @@ Inductive slabel :=
 | SAGiveMe (v : Z)
 | SASetReserved (v : Z)
 | SASetShared (v : Z)
-| SILoopProvision                          (* v2: the loop serves a provisioning request *)
+| SILoopProvision                          (* v2: the loop serves a provisioning request: resize, then call CreatePartitions *)
+| SICreateRet                              (* v2: CreatePartitions returns: provisioning done, capacity recomputed *)
 | SILease (p : nat)                        (* the loop asks for partition p *)
 | SILeaseRet (lt : Z)                      (* LeasePartition returns a lease time (0 = none) *)
 | SIExpire (p : nat)                       (* the expiry timer of partition p fires *)
@@ -178,7 +180,7 @@ Definition do_sstart (c : scfg) (s : sstate) (mgr_ok : bool) : option (sstate * 
   end.
 
 Definition loop_running (s : sstate) : bool :=
-  match s_loop s with STop _ | SCalling _ _ => true | _ => false end.
+  match s_loop s with STop _ | SCalling _ _ | SCreating _ => true | _ => false end.
 
 Definition do_sstop (c : scfg) (s : sstate) : option (sstate * list sobs) :=
   match sc_gen c with
@@ -209,19 +211,31 @@ Definition do_set_shared (c : scfg) (s : sstate) (v : Z) : option (sstate * list
 
 Definition at_top (s : sstate) : bool := match s_loop s with STop _ => true | _ => false end.
 
-(* v2: the loop re-provisions: resize by copy, cap at 500 with an error event *)
+(* v2: the loop re-provisions: resize by copy (under the partition lock), cap at 500 with an error
+   event, then CreatePartitions is called with no lock held: leases may expire meanwhile.  The
+   published capacity is only recomputed when CreatePartitions has returned (or by an expiry in
+   between): until then it may still include partitions that a shrink has dropped. *)
 Definition do_loop_provision (c : scfg) (s : sstate) : option (sstate * list sobs) :=
   match sc_gen c with
   | V2 =>
       if at_top s && s_prov_req s then
         let n := partition_count (s_shared s) (s_factor s) in
         let n' := Z.min n max_partitions in
-        let s1 := calc (s <| s_prov_req := false |> <| s_parts := resize (Z.to_nat n') None (s_parts s) |>) in
-        Some (s1 <| s_loop := STop (s_now s) |>,
+        let s1 := s <| s_prov_req := false |> <| s_parts := resize (Z.to_nat n') None (s_parts s) |> in
+        Some (s1 <| s_loop := SCreating n' |>,
               (if max_partitions <? n then [SOEvError n] else [])
-              ++ [SOEvProvisionStart n'; SOLmCreate n'; SOEvProvisionDone n'; SOEvCapacity (capacity s1)])
+              ++ [SOEvProvisionStart n'; SOLmCreate n'])
       else None
   | V1 => None
+  end.
+
+(* CreatePartitions returns: the done event, then the loop recomputes the capacity and goes on *)
+Definition do_create_ret (c : scfg) (s : sstate) : option (sstate * list sobs) :=
+  match s_loop s with
+  | SCreating n =>
+      let s1 := calc s in
+      Some (s1 <| s_loop := STop (s_now s) |>, [SOEvProvisionDone n; SOEvCapacity (capacity s1)])
+  | _ => None
   end.
 
 (* the loop wakes from its random sleep, counts what it holds, picks a partition it does not
@@ -322,6 +336,7 @@ Definition sstep (c : scfg) (s : sstate) (l : slabel) : option (sstate * list so
   | SASetReserved v => do_set_reserved c s v
   | SASetShared v => do_set_shared c s v
   | SILoopProvision => do_loop_provision c s
+  | SICreateRet => do_create_ret c s
   | SILease p => do_lease c s p
   | SILeaseRet lt => do_lease_ret c s lt
   | SIExpire p => do_expire c s p
